@@ -65,10 +65,19 @@ FILE *__wrap_fopen(const char *path, const char *mode)
     }
     return f;
 }
+/* an injected fread/fwrite fault leaves the stream's error indicator set, as a real I/O error does, until clearerr() */
+static FILE *wr_errstream[64]; static int wr_nerr = 0;
+static void wr_seterr(FILE *f) { for (int i = 0; i < wr_nerr; i++) if (wr_errstream[i] == f) return; if (wr_nerr < 64) wr_errstream[wr_nerr++] = f; }
+static void wr_clrerr(FILE *f) { for (int i = 0; i < wr_nerr; i++) if (wr_errstream[i] == f) { wr_errstream[i] = wr_errstream[--wr_nerr]; return; } }
+int  __real_ferror(FILE *f);
+void __real_clearerr(FILE *f);
+int  __wrap_ferror(FILE *f) { for (int i = 0; i < wr_nerr; i++) if (wr_errstream[i] == f) return 1; return __real_ferror(f); }
+void __wrap_clearerr(FILE *f) { wr_clrerr(f); __real_clearerr(f); }
+
 size_t __wrap_fread(void *p, size_t sz, size_t n, FILE *f)
 {
     if (wr_enabled && wr_slot(f) >= 0 && wr_hit('r')) {
-        errno = EIO;
+        errno = EIO; wr_seterr(f);
         if (wr_partial && sz == 1 && n / 2 > 0) return __real_fread(p, 1, n / 2, f);
         return 0;
     }
@@ -78,7 +87,7 @@ size_t __wrap_fwrite(const void *p, size_t sz, size_t n, FILE *f)
 {
     int s = wr_enabled ? wr_slot(f) : -1;
     if (s >= 0) {
-        if (wr_hit('w')) { errno = ENOSPC; if (wr_partial && sz == 1 && n / 2 > 0) return __real_fwrite(p, 1, n / 2, f); return 0; }
+        if (wr_hit('w')) { errno = ENOSPC; wr_seterr(f); if (wr_partial && sz == 1 && n / 2 > 0) return __real_fwrite(p, 1, n / 2, f); return 0; }
         long off = __real_ftell(f);
         if (wr_nlog == wr_caplog) { wr_caplog = wr_caplog ? wr_caplog * 2 : 1024; wr_log = realloc(wr_log, sizeof(wr_rec) * (size_t)wr_caplog); }
         wr_rec *r = &wr_log[wr_nlog++];
@@ -109,6 +118,7 @@ int __wrap_fclose(FILE *f)
     int s = wr_slot(f);               /* always forget the stream, even when interposition is switched off */
     int fail = wr_enabled && (s >= 0) && wr_hit('c');
     if (s >= 0) wr_files[s] = NULL;
+    wr_clrerr(f);
     int r = __real_fclose(f); /* always release the descriptor */
     if (fail) { errno = EIO; return EOF; }
     return r;
